@@ -243,6 +243,49 @@ def main():
                 canvas[gy0:gy0 + hh, gx0:gx0 + w] = arr
                 check_dir(h, tag, d, "LsYsYX", lines, py, expect_levels=lv, full=False, canvas=canvas)
                 shutil.rmtree(d, ignore_errors=True)
+            # ---- `toasty tile-wwtl`: a WWT layer file (a file cabinet holding the layer description and the image) tiled as a study;
+            # the layer's own image set names the EMBEDDED image's type, the tiles are written in the pyramid's format
+            try:
+                from wwt_data_formats.filecabinet import FileCabinetWriter
+                cid, lid = "0d1e2f3a-1111-4222-8333-944455566677", "a1b2c3d4-5555-4666-8777-888999aaabbb"
+                for (w, hh, ext, pilfmt) in ([(300, 513, ".jpg", "JPEG"), (200, 100, ".png", "PNG")] + ([(700, 300, ".jpg", "JPEG")] if h.deep else [])):
+                    k += 1
+                    d = os.path.join(root, f"cliwwtl{k}")
+                    arr = np.random.RandomState(k).randint(1, 255, size=(hh, w, 3)).astype(np.uint8)
+                    buf = io.BytesIO()
+                    PImage.fromarray(arr, "RGB").save(buf, format=pilfmt)
+                    xml = (f"<?xml version='1.0' encoding='UTF-8'?>\n<LayerContainer ID=\"{cid}\"><Layers>"
+                           f"<Layer Id=\"{lid}\" Type=\"TerraViewer.ImageSetLayer\" Name=\"layer\" ReferenceFrame=\"Sky\" Color=\"NamedColor:White\" Opacity=\"1\" "
+                           f"StartTime=\"1/1/0001 12:00:00 AM\" EndTime=\"12/31/9999 11:59:59 PM\" FadeSpan=\"00:00:00\" FadeType=\"None\" Extension=\"{ext}\" OverrideDefault=\"False\">"
+                           f"<ImageSet DataSetType=\"Sky\" BandPass=\"Visible\" Name=\"layer\" Projection=\"SkyImage\" ReferenceFrame=\"\" CenterX=\"120.5\" CenterY=\"-12.5\" "
+                           f"OffsetX=\"{w / 2}\" OffsetY=\"{hh / 2}\" Rotation=\"5\" BaseDegreesPerTile=\"0.003\" QuadTreeMap=\"\" Url=\"X:\\\\InternalPath{ext}\" DemUrl=\"\" FileType=\"{ext}\" "
+                           f"BaseTileLevel=\"0\" TileLevels=\"0\" WidthFactor=\"1\" MeanRadius=\"0\" BottomsUp=\"False\" Sparse=\"False\" ElevationModel=\"False\" StockSet=\"False\" Generic=\"False\">"
+                           f"<ThumbnailUrl /></ImageSet></Layer></Layers></LayerContainer>")
+                    fw = FileCabinetWriter()
+                    fw.add_file_with_data(cid + ".wwtxml", xml.encode("utf8"))
+                    fw.add_file_with_data(cid + "\\" + lid + ext, buf.getvalue())
+                    src = os.path.join(root, f"layer{k}.wwtl")
+                    with open(src, "wb") as fh_:
+                        fw.emit(fh_)
+                    p2n = 256
+                    while p2n < max(w, hh):
+                        p2n *= 2
+                    lv = int(math.log2(p2n // 256))
+                    tag = f"cli-wwtl/LsYsYX/png/{w}x{hh}/embedded{ext}"
+                    try:
+                        run_cli(["tile-wwtl", "--outdir", d, "--placeholder-thumbnail", src])
+                        if lv > 0:
+                            run_cli(["cascade", "--start", str(lv), "--parallelism", "1", d])
+                    except BaseException as e:  # noqa
+                        h.violation("crash:cli-wwtl", f"{tag}: `toasty tile-wwtl` / `toasty cascade` raised {type(e).__name__}: {e}", input=tag)
+                        h.case((tag,))
+                        continue
+                    h.case((tag,))
+                    h.count("workflow", "cli-wwtl")
+                    check_dir(h, tag, d, "LsYsYX", lines, py, expect_levels=lv, full=False)
+                    shutil.rmtree(d, ignore_errors=True)
+            except ImportError:
+                h.count("workflow", "cli-wwtl-unavailable")
             skysrc = os.path.join(root, "clisky.png")
             PImage.fromarray(sky, "RGB").save(skysrc)
             for depth in ((0, 1, 2) if h.deep else (1, 2)):
